@@ -316,7 +316,7 @@ def gen_cases(rng, tier, h):
 
 
 def _case_bigmem(rng):
-    """get/set on arrays with more than 2^31 / 2^32 one-byte cells (cells live in a NORESERVE mapping)."""
+    """get/set on arrays with more than 2^31 / 2^32 two-byte cells (cells live in a NORESERVE mapping)."""
     c = []
     while len(c) < 16:
         lo, hi = rng.pick([(31, 32), (32, 33), (33, 35)])
@@ -364,7 +364,7 @@ def extra_stage(rep, ctx):
     cases = [list(_BIG_SEEDS)] + [_case_bigmem(rng) for _ in range(40 if tier == "quick" else 600)]
     rc, io, err = pair.run_impl(cases[:1])
     if any(l.strip() == "nomem" for l in io.get(0, [])):
-        rep.notes.append("bigmem stage skipped: mmap(MAP_NORESERVE, 32 GiB) failed on this machine")
+        rep.notes.append("bigmem stage skipped: mmap(MAP_NORESERVE, 64 GiB) failed on this machine")
         return dict(evaluations=0)
     fails = pair.compare(cases)
     found = False
